@@ -7,7 +7,10 @@
 //   views : 0..5 views (random selectors and settings) against 1..6 instruments in 1..3 meters,
 //           1..2 readers (delta/cumulative), two record+collect rounds, compared with a model.
 //   scopes: configurator rule lists (first match wins) against 1..8 scope requests for tracers,
-//           meters and loggers; telemetry of disabled scopes, pointer identity of Get*.
+//           meters and loggers; telemetry of disabled scopes, pointer identity of Get*.  Each
+//           provider is assembled through one (seed-derived) of ALL public ways to hand over a
+//           configurator: every constructor overload (one processor, vector of processors, ready
+//           context) and every *ProviderFactory / *ContextFactory Create overload taking one.
 // Strings are handed to the SDK as exact-size non-terminated heap views (vf::Buf) and killed
 // right after the call.  Because the unchanged tree's ValidateName/ValidateUnit read such a view
 // as a C string (ASan abort on EVERY name), each process first probes that once in a forked
@@ -26,14 +29,20 @@
 #include "opentelemetry/sdk/instrumentationscope/scope_configurator.h"
 #include "opentelemetry/sdk/logs/exporter.h"
 #include "opentelemetry/sdk/logs/logger_config.h"
+#include "opentelemetry/sdk/logs/logger_context.h"
+#include "opentelemetry/sdk/logs/logger_context_factory.h"
 #include "opentelemetry/sdk/logs/logger_provider.h"
+#include "opentelemetry/sdk/logs/logger_provider_factory.h"
 #include "opentelemetry/sdk/logs/read_write_log_record.h"
 #include "opentelemetry/sdk/logs/simple_log_record_processor.h"
 #include "opentelemetry/sdk/metrics/aggregation/aggregation_config.h"
 #include "opentelemetry/sdk/metrics/export/metric_producer.h"
 #include "opentelemetry/sdk/metrics/instruments.h"
 #include "opentelemetry/sdk/metrics/meter_config.h"
+#include "opentelemetry/sdk/metrics/meter_context.h"
+#include "opentelemetry/sdk/metrics/meter_context_factory.h"
 #include "opentelemetry/sdk/metrics/meter_provider.h"
+#include "opentelemetry/sdk/metrics/meter_provider_factory.h"
 #include "opentelemetry/sdk/metrics/metric_reader.h"
 #include "opentelemetry/sdk/metrics/view/attributes_processor.h"
 #include "opentelemetry/sdk/metrics/view/instrument_selector.h"
@@ -45,7 +54,10 @@
 #include "opentelemetry/sdk/trace/simple_processor.h"
 #include "opentelemetry/sdk/trace/span_data.h"
 #include "opentelemetry/sdk/trace/tracer_config.h"
+#include "opentelemetry/sdk/trace/tracer_context.h"
+#include "opentelemetry/sdk/trace/tracer_context_factory.h"
 #include "opentelemetry/sdk/trace/tracer_provider.h"
+#include "opentelemetry/sdk/trace/tracer_provider_factory.h"
 #include "opentelemetry/trace/span.h"
 #include "opentelemetry/trace/tracer.h"
 
@@ -2143,13 +2155,18 @@ static bool check_identity(const char *signal,
   return true;
 }
 
-static void check_telemetry(const char *signal,
+// `path` names the way the provider was constructed (part of the input class); `tally` = false for
+// the second processor of a provider (same oracle, the per-request counters are not doubled)
+static void check_telemetry(const char *signal_name,
+                            const char *path,
                             const std::vector<ScopeId> &ids,
                             const std::vector<bool> &enabled,
                             const std::vector<SpanRec> &got,
-                            const std::string &ctx)
+                            const std::string &ctx,
+                            bool tally = true)
 {
-  auto &R = vf::report();
+  auto &R                  = vf::report();
+  const std::string signal = std::string(signal_name) + ":" + path;  // input class
   std::map<std::string, const SpanRec *> by_tag;
   for (auto &g : got)
   {
@@ -2162,13 +2179,21 @@ static void check_telemetry(const char *signal,
     auto it         = by_tag.find(tag);
     if (!enabled[j])
     {
-      R.count(std::string("scopes_disabled_") + signal);
+      if (tally)
+      {
+        R.count(std::string("scopes_disabled_") + signal_name);
+        R.count(std::string("scopes_disabled_") + signal);
+      }
       if (it != by_tag.end())
         R.violation("scope-disabled-silent", signal, "disabled scope " + show_scope(ids[j]) + " produced " + tag + "; " + ctx);
     }
     else
     {
-      R.count(std::string("scopes_enabled_") + signal);
+      if (tally)
+      {
+        R.count(std::string("scopes_enabled_") + signal_name);
+        R.count(std::string("scopes_enabled_") + signal);
+      }
       if (it == by_tag.end())
         R.violation("scope-enabled-records", signal, "enabled scope " + show_scope(ids[j]) + " produced nothing; " + ctx);
       else if (it->second->name != ids[j].name || it->second->version != ids[j].version || it->second->schema != ids[j].schema)
@@ -2181,10 +2206,135 @@ static void check_telemetry(const char *signal,
     R.violation("scope-telemetry-once", signal, std::to_string(got.size()) + " records for " + std::to_string(ids.size()) + " requests; " + ctx);
 }
 
+// ---- every public way to build a provider with a scope configurator -------------------------
+// traces / logs: the processor(s) go in as one unique_ptr, as a vector, or inside a context that
+// was built by its constructor or by the *ContextFactory; the provider is built by its constructor
+// or by the *ProviderFactory.
+enum ProcPath
+{
+  kProcessorCtor = 0,      // Provider(unique_ptr<Processor>, ..., configurator)
+  kVectorCtor,             // Provider(vector<unique_ptr<Processor>>&&, ..., configurator)
+  kContextCtor,            // Provider(unique_ptr<Context>(new Context(vector, ..., configurator)))
+  kContextFactoryCtor,     // Provider(ContextFactory::Create(vector, ..., configurator))
+  kProcessorFactory,       // ProviderFactory::Create(unique_ptr<Processor>, ..., configurator)
+  kVectorFactory,          // ProviderFactory::Create(vector&&, ..., configurator)
+  kContextFactory,         // ProviderFactory::Create(unique_ptr<Context>(new Context(..., configurator)))
+  kContextFactoryFactory,  // ProviderFactory::Create(ContextFactory::Create(..., configurator))
+  kProcPaths
+};
+static const char *const kProcPathName[kProcPaths] = {"processor-constructor",      "vector-constructor", "context-constructor",
+                                                      "contextfactory-constructor", "processor-factory",  "vector-factory",
+                                                      "context-factory",            "contextfactory-factory"};
+static bool single_processor_path(int path) { return path == kProcessorCtor || path == kProcessorFactory; }
+
+// metrics: (views, resource, configurator) directly, or inside a context
+enum MeterPath
+{
+  kViewsCtor = 0,               // MeterProvider(views, resource, configurator)
+  kViewsFactory,                // MeterProviderFactory::Create(views, resource, configurator)
+  kMeterContextCtor,            // MeterProvider(unique_ptr<MeterContext>(new MeterContext(views, resource, configurator)))
+  kMeterContextFactoryCtor,     // MeterProvider(MeterContextFactory::Create(views, resource, configurator))
+  kMeterContextFactory,         // MeterProviderFactory::Create(unique_ptr<MeterContext>(new MeterContext(...)))
+  kMeterContextFactoryFactory,  // MeterProviderFactory::Create(MeterContextFactory::Create(...))
+  kMeterPaths
+};
+static const char *const kMeterPathName[kMeterPaths] = {"views-constructor",          "views-factory",   "context-constructor",
+                                                        "contextfactory-constructor", "context-factory", "contextfactory-factory"};
+
+static std::unique_ptr<sdkt::TracerProvider> make_tracer_provider(int path,
+                                                                  std::vector<std::unique_ptr<sdkt::SpanProcessor>> procs,
+                                                                  std::unique_ptr<sdkscope::ScopeConfigurator<sdkt::TracerConfig>> cfg)
+{
+  typedef sdkt::TracerProvider P;
+  const sdkres::Resource &res = sdkres::Resource::GetEmpty();
+  std::unique_ptr<sdkt::Sampler> sampler(new sdkt::AlwaysOnSampler);
+  std::unique_ptr<sdkt::IdGenerator> idgen(new sdkt::RandomIdGenerator());
+  switch (path)
+  {
+    case kProcessorCtor:
+      return std::unique_ptr<P>(new P(std::move(procs[0]), res, std::move(sampler), std::move(idgen), std::move(cfg)));
+    case kVectorCtor:
+      return std::unique_ptr<P>(new P(std::move(procs), res, std::move(sampler), std::move(idgen), std::move(cfg)));
+    case kContextCtor:
+      return std::unique_ptr<P>(new P(std::unique_ptr<sdkt::TracerContext>(
+          new sdkt::TracerContext(std::move(procs), res, std::move(sampler), std::move(idgen), std::move(cfg)))));
+    case kContextFactoryCtor:
+      return std::unique_ptr<P>(
+          new P(sdkt::TracerContextFactory::Create(std::move(procs), res, std::move(sampler), std::move(idgen), std::move(cfg))));
+    case kProcessorFactory:
+      return sdkt::TracerProviderFactory::Create(std::move(procs[0]), res, std::move(sampler), std::move(idgen), std::move(cfg));
+    case kVectorFactory:
+      return sdkt::TracerProviderFactory::Create(std::move(procs), res, std::move(sampler), std::move(idgen), std::move(cfg));
+    case kContextFactory:
+      return sdkt::TracerProviderFactory::Create(std::unique_ptr<sdkt::TracerContext>(
+          new sdkt::TracerContext(std::move(procs), res, std::move(sampler), std::move(idgen), std::move(cfg))));
+    default:
+      return sdkt::TracerProviderFactory::Create(
+          sdkt::TracerContextFactory::Create(std::move(procs), res, std::move(sampler), std::move(idgen), std::move(cfg)));
+  }
+}
+
+static std::unique_ptr<sdkl::LoggerProvider> make_logger_provider(int path,
+                                                                  std::vector<std::unique_ptr<sdkl::LogRecordProcessor>> procs,
+                                                                  std::unique_ptr<sdkscope::ScopeConfigurator<sdkl::LoggerConfig>> cfg)
+{
+  typedef sdkl::LoggerProvider P;
+  const sdkres::Resource &res = sdkres::Resource::GetEmpty();
+  switch (path)
+  {
+    case kProcessorCtor:
+      return std::unique_ptr<P>(new P(std::move(procs[0]), res, std::move(cfg)));
+    case kVectorCtor:
+      return std::unique_ptr<P>(new P(std::move(procs), res, std::move(cfg)));
+    case kContextCtor:
+      return std::unique_ptr<P>(new P(std::unique_ptr<sdkl::LoggerContext>(new sdkl::LoggerContext(std::move(procs), res, std::move(cfg)))));
+    case kContextFactoryCtor:
+      return std::unique_ptr<P>(new P(sdkl::LoggerContextFactory::Create(std::move(procs), res, std::move(cfg))));
+    case kProcessorFactory:
+      return sdkl::LoggerProviderFactory::Create(std::move(procs[0]), res, std::move(cfg));
+    case kVectorFactory:
+      return sdkl::LoggerProviderFactory::Create(std::move(procs), res, std::move(cfg));
+    case kContextFactory:
+      return sdkl::LoggerProviderFactory::Create(
+          std::unique_ptr<sdkl::LoggerContext>(new sdkl::LoggerContext(std::move(procs), res, std::move(cfg))));
+    default:
+      return sdkl::LoggerProviderFactory::Create(sdkl::LoggerContextFactory::Create(std::move(procs), res, std::move(cfg)));
+  }
+}
+
+static std::unique_ptr<sdkm::MeterProvider> make_meter_provider(int path, std::unique_ptr<sdkscope::ScopeConfigurator<sdkm::MeterConfig>> cfg)
+{
+  typedef sdkm::MeterProvider P;
+  const sdkres::Resource &res = sdkres::Resource::GetEmpty();
+  std::unique_ptr<sdkm::ViewRegistry> views(new sdkm::ViewRegistry());
+  switch (path)
+  {
+    case kViewsCtor:
+      return std::unique_ptr<P>(new P(std::move(views), res, std::move(cfg)));
+    case kViewsFactory:
+      return sdkm::MeterProviderFactory::Create(std::move(views), res, std::move(cfg));
+    case kMeterContextCtor:
+      return std::unique_ptr<P>(new P(std::unique_ptr<sdkm::MeterContext>(new sdkm::MeterContext(std::move(views), res, std::move(cfg)))));
+    case kMeterContextFactoryCtor:
+      return std::unique_ptr<P>(new P(sdkm::MeterContextFactory::Create(std::move(views), res, std::move(cfg))));
+    case kMeterContextFactory:
+      return sdkm::MeterProviderFactory::Create(
+          std::unique_ptr<sdkm::MeterContext>(new sdkm::MeterContext(std::move(views), res, std::move(cfg))));
+    default:
+      return sdkm::MeterProviderFactory::Create(sdkm::MeterContextFactory::Create(std::move(views), res, std::move(cfg)));
+  }
+}
+
 static void scopes_case(uint64_t seed)
 {
   auto &R = vf::report();
   Rng r(seed);
+  // construction paths: own generator, so that rule lists and requests of a case do not depend on them
+  Rng pr(vf::mix(seed, vf::fnv1a("construction-paths")));
+  const int tpath = static_cast<int>(pr.below(kProcPaths)), mpath = static_cast<int>(pr.below(kMeterPaths)),
+            lpath    = static_cast<int>(pr.below(kProcPaths));
+  const size_t tprocs = single_processor_path(tpath) ? 1 : static_cast<size_t>(pr.range(1, 2));
+  const size_t lprocs = single_processor_path(lpath) ? 1 : static_cast<size_t>(pr.range(1, 2));
   // the scope names of this case
   std::vector<std::string> names;
   size_t nn = static_cast<size_t>(r.range(2, 5));
@@ -2308,16 +2458,21 @@ static void scopes_case(uint64_t seed)
 
   // ---- traces
   {
-    std::vector<SpanRec> got;
+    std::vector<SpanRec> got, got2;  // got2: what the second processor saw (vector / context paths)
     std::vector<ScopeId> ids;
     std::vector<const void *> ptrs;
     std::vector<bool> enabled;
     std::vector<nostd::shared_ptr<opentelemetry::trace::Tracer>> keep;
     {
-      sdkt::TracerProvider provider(
-          std::unique_ptr<sdkt::SpanProcessor>(new sdkt::SimpleSpanProcessor(std::unique_ptr<sdkt::SpanExporter>(new RecSpanExporter(&got)))),
-          sdkres::Resource::GetEmpty(), std::unique_ptr<sdkt::Sampler>(new sdkt::AlwaysOnSampler),
-          std::unique_ptr<sdkt::IdGenerator>(new sdkt::RandomIdGenerator()), build_configurator<sdkt::TracerConfig>(rl, r));
+      std::vector<std::unique_ptr<sdkt::SpanProcessor>> procs;
+      for (size_t k = 0; k < tprocs; ++k)
+        procs.emplace_back(new sdkt::SimpleSpanProcessor(std::unique_ptr<sdkt::SpanExporter>(new RecSpanExporter(k ? &got2 : &got))));
+      std::unique_ptr<sdkt::TracerProvider> provider_owner =
+          make_tracer_provider(tpath, std::move(procs), build_configurator<sdkt::TracerConfig>(rl, r));
+      sdkt::TracerProvider &provider = *provider_owner;
+      R.count(std::string("scope_cases_traces:") + kProcPathName[tpath]);
+      if (tprocs > 1)
+        R.count("scope_cases_traces_two_processors");
       for (size_t j = 0; j < reqs.size(); ++j)
       {
         ScopeId id = reqs[j];
@@ -2343,9 +2498,13 @@ static void scopes_case(uint64_t seed)
         sn.kill(r);
         span->End();
       }
-      std::string ctx = rules;
+      std::string ctx = rules + " provider built by " + kProcPathName[tpath] + " with " + std::to_string(tprocs) + " processor(s)";
       if (check_identity("traces", ids, ptrs, enabled, ctx))
-        check_telemetry("traces", ids, enabled, got, ctx);
+      {
+        check_telemetry("traces", kProcPathName[tpath], ids, enabled, got, ctx);
+        if (tprocs > 1)
+          check_telemetry("traces", kProcPathName[tpath], ids, enabled, got2, ctx + " (second processor)", false);
+      }
       keep.clear();
     }
   }
@@ -2356,7 +2515,8 @@ static void scopes_case(uint64_t seed)
     std::vector<bool> enabled;
     std::vector<nostd::shared_ptr<metrics_api::Meter>> keep;
     std::vector<std::unique_ptr<Instr>> instrs;
-    auto provider = new_meter_provider(build_configurator<sdkm::MeterConfig>(rl, r));
+    auto provider = make_meter_provider(mpath, build_configurator<sdkm::MeterConfig>(rl, r));
+    R.count(std::string("scope_cases_metrics:") + kMeterPathName[mpath]);
     std::shared_ptr<PullReader> reader(new PullReader(sdkm::AggregationTemporality::kCumulative));
     provider->AddMetricReader(reader);
     for (size_t j = 0; j < reqs.size(); ++j)
@@ -2399,22 +2559,30 @@ static void scopes_case(uint64_t seed)
     std::vector<SpanRec> got;
     for (auto &st : collect(*reader))
       got.push_back({st.name, st.sname, st.sver, st.sschema});
-    if (check_identity("metrics", ids, ptrs, enabled, rules))
-      check_telemetry("metrics", ids, enabled, got, rules);
+    std::string ctx = rules + " provider built by " + kMeterPathName[mpath];
+    if (check_identity("metrics", ids, ptrs, enabled, ctx))
+      check_telemetry("metrics", kMeterPathName[mpath], ids, enabled, got, ctx);
     instrs.clear();
     keep.clear();
   }
   // ---- logs
   {
-    std::vector<SpanRec> got;
+    std::vector<SpanRec> got, got2;  // got2: what the second processor saw (vector / context paths)
     std::vector<ScopeId> ids;
     std::vector<const void *> ptrs;
     std::vector<bool> enabled;
     std::vector<nostd::shared_ptr<opentelemetry::logs::Logger>> keep;
     {
-      sdkl::LoggerProvider provider(
-          std::unique_ptr<sdkl::LogRecordProcessor>(new sdkl::SimpleLogRecordProcessor(std::unique_ptr<sdkl::LogRecordExporter>(new RecLogExporter(&got)))),
-          sdkres::Resource::GetEmpty(), build_configurator<sdkl::LoggerConfig>(rl, r));
+      std::vector<std::unique_ptr<sdkl::LogRecordProcessor>> procs;
+      for (size_t k = 0; k < lprocs; ++k)
+        procs.emplace_back(
+            new sdkl::SimpleLogRecordProcessor(std::unique_ptr<sdkl::LogRecordExporter>(new RecLogExporter(k ? &got2 : &got))));
+      std::unique_ptr<sdkl::LoggerProvider> provider_owner =
+          make_logger_provider(lpath, std::move(procs), build_configurator<sdkl::LoggerConfig>(rl, r));
+      sdkl::LoggerProvider &provider = *provider_owner;
+      R.count(std::string("scope_cases_logs:") + kProcPathName[lpath]);
+      if (lprocs > 1)
+        R.count("scope_cases_logs_two_processors");
       // logger names: a small pool so that (logger name, scope) pairs repeat
       std::vector<std::string> lnames = {"lg", "lg2", "lib.a"};
       std::map<std::string, std::string> lname_of;  // keep repeated identities truly identical
@@ -2447,8 +2615,13 @@ static void scopes_case(uint64_t seed)
           lg->EmitLogRecord(std::move(rec));
         }
       }
-      if (check_identity("logs", ids, ptrs, enabled, rules))
-        check_telemetry("logs", ids, enabled, got, rules);
+      std::string ctx = rules + " provider built by " + kProcPathName[lpath] + " with " + std::to_string(lprocs) + " processor(s)";
+      if (check_identity("logs", ids, ptrs, enabled, ctx))
+      {
+        check_telemetry("logs", kProcPathName[lpath], ids, enabled, got, ctx);
+        if (lprocs > 1)
+          check_telemetry("logs", kProcPathName[lpath], ids, enabled, got2, ctx + " (second processor)", false);
+      }
       keep.clear();
     }
   }
